@@ -263,7 +263,7 @@ int WorkerMain(int argc, char ** argv, const WorkerDef & def)
       setenv("VSIM_NOASLR", "1", 1);
       if (personality(ADDR_NO_RANDOMIZE) != -1) {execv("/proc/self/exe", argv); perror("execv");}
    }
-   if (g_proto == NULL) {g_proto = fdopen(dup(1), "w"); if ((mode != "exec")||(Flag(argc, argv, "--verbose") == false)) {const int nul = open("/dev/null", O_WRONLY); if (nul >= 0) {fflush(stdout); (void) dup2(nul, 1); close(nul);}}}
+   if (g_proto == NULL) {g_proto = fdopen(dup(1), "w"); g_resultFd = fileno(g_proto); /* watchdog / terminate / any-thread violation lines are written to this descriptor directly */ if ((mode != "exec")||(Flag(argc, argv, "--verbose") == false)) {const int nul = open("/dev/null", O_WRONLY); if (nul >= 0) {fflush(stdout); (void) dup2(nul, 1); close(nul);}}}
 
    signal(SIGALRM, OnAlarm);
    std::set_terminate(OnTerminate);
